@@ -214,61 +214,63 @@ def main():
 
     in_file = open(input_file, 'r')
     cnl2asp = Cnl2asp(in_file, args.debug)
-    if args.check_syntax:
-        if cnl2asp.check_syntax():
-            print("Input file fits the grammar.")
-    elif args.cnl2json:
-        print(json.dumps(cnl2asp.cnl_to_json()))
-    elif args.symbols:
-        print(cnl2asp.get_symbols())
-    else:
-        try:
-            asp_encoding = cnl2asp.compile()
-        except UnexpectedCharacters as e:
-            in_file.seek(0)
-            cnl_input = in_file.read()
-            print(ParserError(e.char, e.line, e.column, e.get_context(cnl_input), cnl_input.splitlines()[e.line - 1],
-                              list(e.allowed)))
+    try:
+        if args.check_syntax:
+            if cnl2asp.check_syntax():
+                print("Input file fits the grammar.")
             return ''
-        except VisitError as e:
-            print(e.args[0])
-            if args.debug:
-                traceback.print_exception(e)
+        if args.cnl2json:
+            print(json.dumps(cnl2asp.cnl_to_json()))
             return ''
-        except Exception as e:
-            print("Error in asp conversion:", str(e))
-            if args.debug:
-                traceback.print_exception(e)
+        if args.symbols:
+            print(cnl2asp.get_symbols())
             return ''
+        asp_encoding = cnl2asp.compile()
+    except UnexpectedCharacters as e:
+        in_file.seek(0)
+        cnl_input = in_file.read()
+        print(ParserError(e.char, e.line, e.column, e.get_context(cnl_input), cnl_input.splitlines()[e.line - 1],
+                          list(e.allowed)))
+        return ''
+    except VisitError as e:
+        print(e.args[0])
+        if args.debug:
+            traceback.print_exception(e)
+        return ''
+    except Exception as e:
+        print("Error in asp conversion:", str(e))
+        if args.debug:
+            traceback.print_exception(e)
+        return ''
 
-        if args.optimize:
-            asp_encoding = cnl2asp.optimize(asp_encoding)
-        try:
-            out = sys.stdout
-            if args.output_file:
-                if str(asp_encoding):
-                    print("Compilation completed.")
-                out = open(args.output_file, "w")
-            out.write(asp_encoding)
-            if args.solve:
-                if args.solve == "clingo":
-                    from cnl2asp.ASP_elements.solver.clingo_wrapper import Clingo
-                    from cnl2asp.ASP_elements.solver.clingo_result_parser import ClingoResultParser
-                    solver = Clingo()
-                    res_parser = ClingoResultParser(cnl2asp.parse_input())
-                elif args.solve == "telingo":
-                    from cnl2asp.ASP_elements.solver.telingo_result_parser import TelingoResultParser
-                    from cnl2asp.ASP_elements.solver.telingo_wrapper import Telingo
-                    solver = Telingo()
-                    res_parser = TelingoResultParser(cnl2asp.parse_input())
-                else:
-                    raise Exception(f"{args.solve} not recognised")
-                print("\n*********")
-                print(f"Running {args.solve}...\n")
-                solver.load(str(asp_encoding))
-                res = solver.solve()
-                if args.explain:
-                    model = res_parser.parse_model(res)
-                    print("\n\n" + model)
-        except Exception as e:
-            print("Error in writing output", str(e))
+    if args.optimize:
+        asp_encoding = cnl2asp.optimize(asp_encoding)
+    try:
+        out = sys.stdout
+        if args.output_file:
+            if str(asp_encoding):
+                print("Compilation completed.")
+            out = open(args.output_file, "w")
+        out.write(asp_encoding)
+        if args.solve:
+            if args.solve == "clingo":
+                from cnl2asp.ASP_elements.solver.clingo_wrapper import Clingo
+                from cnl2asp.ASP_elements.solver.clingo_result_parser import ClingoResultParser
+                solver = Clingo()
+                res_parser = ClingoResultParser(cnl2asp.parse_input())
+            elif args.solve == "telingo":
+                from cnl2asp.ASP_elements.solver.telingo_result_parser import TelingoResultParser
+                from cnl2asp.ASP_elements.solver.telingo_wrapper import Telingo
+                solver = Telingo()
+                res_parser = TelingoResultParser(cnl2asp.parse_input())
+            else:
+                raise Exception(f"{args.solve} not recognised")
+            print("\n*********")
+            print(f"Running {args.solve}...\n")
+            solver.load(str(asp_encoding))
+            res = solver.solve()
+            if args.explain:
+                model = res_parser.parse_model(res)
+                print("\n\n" + model)
+    except Exception as e:
+        print("Error in writing output", str(e))
